@@ -105,6 +105,7 @@ var subcommands = map[string]func(common){
 	"tbl-reqobj": func(c common) { table(c, tbldrv.RequestObjectCase) },
 	"tbl-authresp": func(c common) { table(c, tbldrv.AuthResponseCase) },
 	"tbl-codec": func(c common) { table(c, tbldrv.CodecCase) },
+	"tbl-discovery": func(c common) { tbldrv.DiscWorldPath = c.world; table(c, tbldrv.DiscoveryCase) },
 	"tbl-handler": func(c common) { tbldrv.HandlerWorldPath = c.world; table(c, tbldrv.HandlerCase) },
 	"tbl-faults": func(c common) { tbldrv.FaultWorldPath = c.world; table(c, tbldrv.FaultCase) },
 }
